@@ -77,3 +77,18 @@ impl BitReader {
         Ok(v.swap_bytes())
     }
 }
+
+// ---- helpers for harnesses ---------------------------------------------------------------------
+impl BitReader {
+    /// an independent reader at the same position over the same bits (the harness's view of the input)
+    pub fn fork(&self) -> BitReader { BitReader { data: self.data, bits_read: self.bits_read, len_bits: self.len_bits } }
+}
+/// two's complement value of a sign bit followed by `bits` magnitude bits
+pub fn twos(sign: u64, value: u64, bits: u32) -> i64 { if sign == 1 { value as i64 - (1i64 << bits) } else { value as i64 } }
+/// read n bits from the harness's view; when the input is too short the function under contract
+/// must have reported an error as well
+macro_rules! field {
+    ($p:expr, $res:expr, $n:expr) => {
+        match $p.rd($n) { Ok(v) => v, Err(_) => { assert!($res.is_err()); return; } }
+    };
+}
